@@ -323,7 +323,19 @@ def run(tier, args):
     if args.replay and not chk.violations:
         chk.note("replay: %d re-executions did not reproduce the report (schedules are not deterministic)" % len(jobs))
 
+    # concurrent FIRST use: threads of a fresh process that create their own JitRuntime at the same moment must all see the
+    # complete host description (functional monitor in forked children; the lock-free initialisation is not given to TSan)
+    hexe = build.build_driver("drv_hostinit", "plain")
+    rc, out, err = common.run_child([hexe, "--trials", str(400 if tier == "quick" else 6000), "--seed", str(chk.seed)], timeout=1800)
+    try:
+        hostinit = json.loads(out.decode().strip().splitlines()[-1])
+    except (ValueError, IndexError):
+        raise common.HarnessError("drv_hostinit failed: rc=%s %s" % (rc, err[-300:]))
+    if hostinit["mismatches"]:
+        chk.violation("host-info:concurrent-first-use:incomplete", "%d of %d fresh processes: %s" % (hostinit["mismatches"], hostinit["trials"], hostinit["first"]),
+                      {"case": {"flavour": "hostinit", "argv": ["--trials", "400", "--seed", str(chk.seed)]}})
     chk.coverage.update({
+        "concurrent_first_use_of_host_info": hostinit,
         "evaluations": phases,
         "distinct_nontrivial": len(pairs),
         "rule": "one evaluation = one concurrent phase (n worker threads on one allocator + one runtime, a walker thread, emitter threads) "
